@@ -219,6 +219,11 @@ PROPS["C07"] = {
          "quick": {"checks": 120, "shards": 12, "timeout": 700},
          "thorough": {"checks": 2500, "shards": 16, "timeout": 1700}},
         {"pkg": "verifx/tree", "run": "^TestC07KnownValidPrefix$", "all": {"shards": 1, "timeout": 300}},
+        # the irreversibility clause with the real DPoS veto: the C08 simulation (several real nodes, a misbehaving
+        # producer growing a private branch while the others stay silent), judged for fork choice
+        {"pkg": "verifx/c08", "run": "^TestC07DPoSForkChoice$",
+         "quick": {"checks": 40, "shards": 6, "timeout": 500},
+         "thorough": {"checks": 800, "shards": 12, "timeout": 1700}},
     ],
 }
 
@@ -352,6 +357,7 @@ PROPS["C08"] = {
         {"pkg": "verifx/c08", "run": "^TestC08Finality$",
          "quick": {"checks": 60, "shards": 12, "timeout": 500},
          "thorough": {"checks": 1200, "shards": 16, "timeout": 1700}},
+        {"pkg": "verifx/c08", "run": "^TestC08StaleProposalsAfterReorg$", "all": {"shards": 1, "timeout": 300}},
     ],
 }
 
